@@ -76,9 +76,26 @@ def tieSet : List HeadInfo → List HeadInfo
   | [] => []
   | h0 :: rest => (h0 :: rest).takeWhile (fun h => h.scores == h0.scores)
 
+/-- `_is_same_event_for_conflict(state, winning_event, competing_event)` — REPAIRED behaviour
+    (fixes/C05-identical-event-of-different-actions.diff): equal name + arguments, and when the two events belong to two
+    DIFFERENT action instances they only agree if they start the action.  The source as it is tests `Event.is_equal`
+    alone (`sameEvAsIs`). -/
+def sameEv (w h : HeadInfo) : Bool :=
+  h.ev == w.ev &&
+    (match w.act, h.act with
+     | some b, some a => a == b || w.isStart
+     | _, _ => true)
+
+/-- `winning_event.is_equal(competing_event)` of the unpatched source -/
+def sameEvAsIs (w h : HeadInfo) : Bool := h.ev == w.ev
+
 /-- what happens to a head other than the picked one -/
 def fateOf (w h : HeadInfo) : Fate :=
-  if h.ev = w.ev then .cowin else if h.catchLbl then .caught else .aborted
+  if sameEv w h then .cowin else if h.catchLbl then .caught else .aborted
+
+/-- the same with the unpatched co-winner test -/
+def fateOfAsIs (w h : HeadInfo) : Fate :=
+  if sameEvAsIs w h then .cowin else if h.catchLbl then .caught else .aborted
 
 /-- one `for group in head_groups.values()` iteration; `c` is the outcome of `random.choice` (index mod size). -/
 def resolveGroup (one : Int) (g : List HeadInfo) (c : Nat) : List (HeadInfo × Fate) :=
@@ -188,5 +205,33 @@ def repoints : Option HeadInfo → List (HeadInfo × Fate) → List (Nat × Nat 
     | some b, some a => if a = b then repoints (some w) r else (h.flow, a, b) :: repoints (some w) r
     | _, _ => repoints (some w) r
   | cw, _ :: r => repoints cw r
+
+/-! ### the matcher's scores behind the ranks
+
+  One entry of `matching_scores` is the result of `_compute_event_comparison_score`:
+  `Match.eventScore … = .pos k prio`, i.e. the number `prio · (num/den)^k` with `k` = number of unmentioned parameters,
+  `num/den` the fuzzy-match base of the source (Generated.C04: 9/10) and `prio = m / 2^e` the flow priority
+  (`none` = no scaling).  `mlt` compares two such numbers EXACTLY (integer cross-multiplication, no floats). -/
+
+structure MScore where
+  k : Nat
+  prio : Option (Int × Nat)
+deriving DecidableEq, Repr, Inhabited
+
+def MScore.pnum (s : MScore) : Int := match s.prio with | none => 1 | some (m, _) => m
+def MScore.pexp (s : MScore) : Nat := match s.prio with | none => 0 | some (_, e) => e
+
+/-- value a < value b, where value s = pnum / 2^pexp · (num/den)^k -/
+def mlt (num den : Nat) (a b : MScore) : Prop :=
+  a.pnum * ((num ^ a.k * den ^ b.k * 2 ^ b.pexp : Nat) : Int) < b.pnum * ((num ^ b.k * den ^ a.k * 2 ^ a.pexp : Nat) : Int)
+
+instance (num den : Nat) (a b : MScore) : Decidable (mlt num den a b) := by unfold mlt; infer_instance
+
+/-- three-way exact comparison (driver: validates the float order the harness ranks by) -/
+def mcmp (num den : Nat) (a b : MScore) : Int :=
+  if mlt num den a b then -1 else if mlt num den b a then 1 else 0
+
+/-- the perfect, unscaled match: 1.0 — the value `_resolve_action_conflicts` pads with -/
+def MScore.perfect : MScore := ⟨0, none⟩
 
 end NemoVerif.Conflict
